@@ -41,9 +41,11 @@ PARTIAL = ["content clauses (clause 1 'exactly those k entries with the accessio
            "unmarshalling behave like scanDoc is not proved - it is compared on every generated text, damaged ones included "
            "(everything the Parse loop depends on: entries with contents, sawElement, how the stream ends)",
            "clause 2 'reports at least one error': proved for every stream whose trace is not that of a well-formed document "
-           "(damaged_terminates, damaged_document_delivers). MISSING: a document-level theorem that every truncated or corrupted "
-           "text has such a trace (the reader's / decoder's error detection = XML well-formedness checking); the judge demands "
-           ">= 1 error on every constructed damage, and scanDoc agrees with the decoder on all of them",
+           "(damaged_terminates, damaged_document_delivers) and, at the level of the TEXT, for TRUNCATION: every cut of a document "
+           "before the end of its root element gives the reader a non-clean trace, and the entries it has completed by then are the "
+           "document's first entries (truncation_detected, truncated_document_reports). MISSING: the same for corruption other than "
+           "truncation (an overwritten byte etc.): no document-level theorem that such a text has a non-clean trace; the judge "
+           "demands >= 1 error on every constructed corruption, and scanDoc agrees with the decoder on all of them",
            "termination of the DECODER on a finite input is built into the model's finite traces; the original defect (endless "
            "re-sending of a sticky error) is visible to the correspondence only"]
 TECHNIQUE = ("Lean 4 proof over the token loop of uniprot.Parse on an abstract decoder, as a producer on two channels of a "
@@ -55,7 +57,8 @@ LEVEL_TEXT = ("Kernel-checked for every trace, EVERY capacity pair (0 included),
               "(lexer + nesting + Parse loop + DecodeElement as a state machine): scan_document (the text of a document reads "
               "back as exactly its k entries with their accessions, names, sequence), document_delivers, scan_prefix and "
               "damaged_document_delivers (any stream that agrees with the document through an entry's end tag delivers the "
-              "entries up to it first, closes both channels, reports every kept error); report_before_close_blocks records why the "
+              "entries up to it first, closes both channels, reports every kept error), truncation_detected (every cut before the end "
+              "of the root element is detected by the reader) and truncated_document_reports; report_before_close_blocks records why the "
               "old send order was a defect. Termination of the DECODER is an assumption built into the model's finite traces: "
               "the original defect (endless re-sending of a sticky error) is visible to the correspondence only. Tied to the "
               "code by correspondence of (closed, #errors, delivered entries) against the model run on the token trace "
